@@ -205,11 +205,14 @@ let handle kind c =
        end)
   | "cfail" ->
     (* a rotation that fails while an Add is under way: oracle only *)
-    let fkind = next c in let k = next_int c in let has_ptr = next_bool c in
+    let fkind = next c in let k = next_int c in let j = next_int c in let has_ptr = next_bool c in
     let status = next c in let parked = next_bool c in
     let total = next_n c in let extra = next_n c in let persisted = next_n c in
-    let _calls = next_int c in let _steps = next_int c in
-    let where = Printf.sprintf "failing-rotation[%s] after %d steps of the Add (counter %s a pointer)" fkind k (if has_ptr then "has" else "has not yet") in
+    let _calls = next_int c in let _steps = next_int c in let late_use = next_int c in
+    let where = Printf.sprintf "failing-rotation[%s] after %d steps of the Add (counter %s a pointer)%s" fkind k (if has_ptr then "has" else "has not yet")
+        (if j >= 0 then Printf.sprintf ", stopped after %d of its steps for a late Add" j else "") in
+    if late_use > 0 then
+      prop "entered-through-closed-mapping" (Printf.sprintf "%s: an Add that began after the old mapping had been closed went through it (%d accesses): the mapping was closed before the counters were invalidated" where late_use);
     (match status with
      | "panic" -> prop "panic" (where ^ ": a panic escaped from Counter.Add / rotate1")
      | "hang" -> prop "hang" (where ^ ": Add / rotate1 did not return within the step budget")
